@@ -11,6 +11,7 @@ CONFIG = dict(
         dict(name="c28_timeout_time", tier="quick"),
         dict(name="c28_time_limit", tier="quick"),
         dict(name="c28_slices_std_axioms", tier="quick", timeout=120),
+        dict(name="c28_slices_few_pieces", tier="quick", timeout=900, bounded="requests of at most three pieces (total < 3 x slice), full Duration domain otherwise", report_safety_too=True),
     ],
     verus=[
         dict(name="get_slices", source="core/src/common/mod.rs", preamble="specs/C28/get_slices.vpre.rs",
